@@ -146,6 +146,7 @@ class Concretiser:
 
     def cfg(self):
         p = dict(self.policy)
+        p.pop("_doms", None)
         p["rejectOrigin"] = [list(x) for x in p["rejectOrigin"]]
         return {"policy": p, "maxRcpt": self.max_rcpt, "maxBytes": self.max_bytes, "naming": self.naming, "failMailbox": self.fail_mailbox, "tls": self.tls}
 
@@ -196,7 +197,7 @@ class Concretiser:
             elif self.origins:
                 dom = self.origins[self.norigin % len(self.origins)]
                 self.norigin += 1
-                addr = "sender@" + mixcase(dom, rng)
+                addr = "sender@" + spell_domain(dom, rng)
             abs_.update(sender={"addr": ("<%s>" % addr) if addr else ""}, domchars=list(dom))
             if a.get("hook", "none") != "none":
                 abs_["hook"] = self.hook_answer(a["hook"])
@@ -343,7 +344,7 @@ def c01(run, args):
     # (1) transition tour: every (contract state, command) edge once, each completed by a delivery that exposes hidden state
     tour = run.generate("GenSmtp", gen_cfg(core + ["noop", "unknown", "empty", "authplain", "authlogin", "dataarg"], 60, "tour",
                                            mailkinds=("ok", "origin"), rcptkinds=("a1", "a2", "c", "rej") if quick else kinds["rcptkinds"],
-                                           bodykinds=("ok", "unparseable"), maxrcpts=(2,),
+                                           bodykinds=("ok", "unparseable", "big"), maxrcpts=(2,),
                                            bound="Bound1" if quick else "Bound"), workers=4)
     # (2) every command sequence inside an open transaction, to a bounded depth
     bfs = run.generate("GenSmtp", gen_cfg(["helo", "mail", "rcpt", "data", "rset"], 7, "bfs", mailkinds=("ok",),
@@ -368,7 +369,7 @@ def c01(run, args):
         mr = 2 if i < ntour else 3
 
         def mk(rng, n, p):
-            c = Concretiser(rng, naming=n, policy=POLICIES[p], max_rcpt=mr)
+            c = Concretiser(rng, naming=n, policy=POLICIES[p], max_rcpt=mr, max_bytes=20000 if i < ntour else 100000)
             if (i + run.seed) % 4 == 0:
                 # fault injection: the store refuses deliveries to one of the mailboxes (alice's or bob's)
                 l_, d_, _ = c.rc[["a1", "b"][(i // 4) % 2]]
@@ -383,7 +384,7 @@ def c01(run, args):
     replay_and_validate(run, vh, beh, "c01", "C01 delivery exactly once per accepted recipient")
     run.cov["rule"] = ("TLC walks every edge (state, command) of the Smtp contract's bounded state graph once (transition tour; each edge is followed by a delivery to a fresh "
                        "recipient so that a stale envelope or a wrong session state becomes visible), enumerates every command sequence inside an open transaction over {EHLO/HELO, MAIL, "
-                       "RCPT x 6 recipient classes, DATA, body ok/unparseable, RSET} to the stated depth and simulates multi-transaction dialogues; each is spelled as protocol lines (mixed-case verbs) and played against the real "
+                       "RCPT x 6 recipient classes, DATA, body ok/unparseable (tour: also a body over the size limit, which must be refused and leave no envelope behind), RSET} to the stated depth and simulates multi-transaction dialogues; each is spelled as protocol lines (mixed-case verbs) and played against the real "
                        "server with a real store; after every line the reply class and the whole store (per mailbox: sender, recipients, subject, content hash, size == "
                        "len(source), trace headers present) must be those of Smtp.tla: one new message per accepted storable recipient in the mailbox its address names, nothing otherwise. "
                        "non-trivial = reaches the end of a DATA block or has >= 2 MAIL/RCPT; distinct = distinct abstract dialogue")
@@ -554,8 +555,18 @@ def c06(run, args):
 
 # --------------------------------------------------------------------------- C05
 C05_DOMS = ["d1.example", "d2.example", "d3.example"]
-C05_ORIGINS = ["good.example", "spam.example", "a.wild.example", "spa1.example", "wild.example"]
-C05_PATTERNS = [[], ["spam.example"], ["*.wild.example"], ["spa?.example"], ["*"], ["spam.example", "*.wild.example"], ["*.example"], ["????.example"]]
+C05_ORIGINS = ["good.example", "spam.example", "a.wild.example", "spa1.example", "wild.example", "[ipv6:2001:db8:bad::1]", "[192.0.2.66]"]
+C05_PATTERNS = [[], ["spam.example"], ["*.wild.example"], ["spa?.example"], ["*"], ["spam.example", "*.wild.example"], ["*.example"], ["????.example"],
+                ["[ipv6:2001:db8:bad:*", "[192.0.2.66]"]]
+# a second set of recipient domains: address literals (the configuration lists name them like any other domain)
+C05_DOMS_LIT = ["[ipv6:2001:db8::1]", "[192.0.2.7]", "d3.example"]
+
+
+def spell_domain(dom, rng):
+    """a domain as a client writes it: mixed case; an IPv6 literal keeps its tag as 'IPv6:' and varies the hexadecimal digits"""
+    if dom.startswith("[ipv6:"):
+        return "[IPv6:" + mixcase(dom[6:], rng)
+    return mixcase(dom, rng)
 
 
 class PolicyConcretiser(Concretiser):
@@ -566,10 +577,11 @@ class PolicyConcretiser(Concretiser):
         super().__init__(rng, naming="local", policy=policy, max_rcpt=max_rcpt)
         self.mixed_cfg = True
         self.origins = C05_ORIGINS[rng.randrange(len(C05_ORIGINS)):] + C05_ORIGINS
+        doms = policy.get("_doms", C05_DOMS)
         self.rc = {
-            "a1": ("u1", C05_DOMS[0], "u1@" + mixcase(C05_DOMS[0], rng)),
-            "c": ("u2", C05_DOMS[1], "U2+x@" + mixcase(C05_DOMS[1], rng)),
-            "rej": ("u3", C05_DOMS[2], "u3@" + mixcase(C05_DOMS[2], rng)),
+            "a1": ("u1", doms[0], "u1@" + spell_domain(doms[0], rng)),
+            "c": ("u2", doms[1], "U2+x@" + spell_domain(doms[1], rng)),
+            "rej": ("u3", doms[2], "u3@" + spell_domain(doms[2], rng)),
         }
 
 
@@ -583,7 +595,10 @@ def c05_policies(quick, seed):
             for ds in (True, False):
                 combos = [(j + 5 * i) % 16 for i in range(3)]
                 pol = dict(defaultAccept=da, defaultStore=ds, accept=[], reject=[], store=[], discard=[])
-                for d, cb in zip(C05_DOMS, combos):
+                doms = C05_DOMS_LIT if n % 4 == 1 else C05_DOMS
+                if doms is C05_DOMS_LIT:
+                    pol["_doms"] = doms
+                for d, cb in zip(doms, combos):
                     if cb & 1:
                         pol["accept"].append(d)
                     if cb & 2:
@@ -645,6 +660,34 @@ def c05(run, args):
                         "steps": [conc.step(a) for a in seq], "_abs": seq})
     run.cov["samples"] = [{"policy": pols[3][0], "maxRcpt": pols[3][1], "env": beh[3 * per]["env"], "dialogue": beh[3 * per]["_abs"]}]
     replay_and_validate(run, vh, beh, "c05", "C05 domain policy")
+    # the same decisions with several sessions at once (the addressing policy is shared by all session goroutines), under the race
+    # detector: eight sessions per group against one server, each with its own dialogue; every session must still get its own answers
+    vhr = run.build_harness(race=True)
+    groups = []
+    for g, ci in enumerate(range(0, len(pols), max(1, len(pols) // (4 if quick else 16)))):
+        pol, mr = pols[ci]
+        if not pol["rejectOrigin"]:
+            pol = dict(pol, rejectOrigin=["spam.example", "*.wild.example", "spa?.example"])
+        for k in range(8):
+            conc = PolicyConcretiser(random.Random("%d/par/%d/%d" % (run.seed, g, k)), pol, mr)
+            seq = [{"c": "helo", "verb": "EHLO", "arg": True}]
+            for rep in range(10):
+                seq += [{"c": "mail", "k": "ok", "hook": "none"}] + list(dia[(g * 53 + k * 7 + rep) % len(dia)][:3]) + [{"c": "rset"}]
+            seq.append({"c": "quit"})
+            seq = [a for a in seq if a["c"] != "body"]
+            groups.append({"id": "par-%d-%d" % (g, k), "group": "g%d" % g, "store": ["mem", "file"][g % 2], "env": conc.env(), "cfg": conc.cfg(),
+                           "names": conc.mailboxes(), "novisit": True, "steps": [conc.step(a) for a in seq if a["c"] != "data"], "_abs": seq})
+    crashes = []
+    gtf = run.harness_parallel(vhr, "smtp", [{k: v for k, v in b.items() if k != "_abs"} for b in groups], "c05par", procs=1, crashes=crashes)
+    report_crashes(run, crashes, "C05 concurrent sessions (race detector / crash)")
+    gres = run.validate("SmtpTrace", TRACE_CFG % dict(mbs=q(sorted({n for b in groups for n in b["names"]}))), gtf)
+    run.cov["evaluations"] += len(groups)
+    gby = {b["id"]: b for b in groups}
+    for r in gres["rejections"]:
+        ev = r["rejected_event"]
+        run.violation("C05 concurrent sessions: session %s step #%d %s -> reply %s %s: not the decision the configuration prescribes (sessions share the addressing policy)" % (
+            r["trace"], r["rejected_event_index"], json.dumps({k: ev.get(k) for k in ("c", "dom") if k in ev}), ev.get("code"), ev.get("cls")),
+            {"behaviour": gby.get(r["trace"]), "rejection": r, "replay_kind": "smtp"})
     # wildcard table: every pattern of length <= 4 over {a,b,.,*,?} against every string of length <= 4 over {a,b,.}
     import itertools
     pal, sal = "ab.*?", "ab."
